@@ -1034,6 +1034,15 @@ def build_error(err):
             value = value or []
             inst = cls(list(value), **kw)
             overrides.append(('Allow', ', '.join(value)))
+        elif extra == 'retry_after' and isinstance(value, list) and value[:1] == ['dt']:
+            # a datetime (documented: "assumed to be UTC", naive or aware): an HTTP-date, whatever the server's time zone
+            import datetime as _dtm
+            y, mo, d, hh, mi, ss = value[1]
+            kw[extra] = _dtm.datetime(y, mo, d, hh, mi, ss, tzinfo=_dtm.timezone.utc if value[2] else None)
+            inst = cls(**kw)
+            overrides.append(('Retry-After', '%s, %02d %s %04d %02d:%02d:%02d GMT' % (
+                ['Mon', 'Tue', 'Wed', 'Thu', 'Fri', 'Sat', 'Sun'][_dtm.date(y, mo, d).weekday()], d,
+                ['Jan', 'Feb', 'Mar', 'Apr', 'May', 'Jun', 'Jul', 'Aug', 'Sep', 'Oct', 'Nov', 'Dec'][mo - 1], y, hh, mi, ss)))
         elif extra is not None and value is not None:
             kw[extra] = list(value) if extra == 'challenges' else value
             inst = cls(**kw)
@@ -1289,7 +1298,10 @@ def _render_case(draw):
              ['line', '599 Custom X'],
              ['int', 400], ['int', 404], ['int', 409], ['int', 415], ['int', 429], ['int', 500], ['int', 503],
              ['enum', 400], ['enum', 403], ['enum', 409], ['enum', 500], ['enum', 502],
-             ['bytes', '409 Conflict'], ['bytes', '503 Service Unavailable']]))
+             ['bytes', '409 Conflict'], ['bytes', '503 Service Unavailable'],
+             # the error's OWN reason phrase travels with it: a custom phrase in a bytes line, the http.HTTPStatus member's
+             ['bytes', '409 Edit Conflict'], ['bytes', '599 Custom X'], ['enum', 418], ['enum', 413], ['enum', 416], ['enum', 422],
+             ['enum', 414], ['enum', 451]]))
     else:
         extra = ERROR_CLASSES[cls][1]
         if extra == 'challenges':
@@ -1297,7 +1309,8 @@ def _render_case(draw):
         elif extra == 'allowed_methods':
             err['extra'] = draw(st.sampled_from([[], ['GET'], ['GET', 'POST', 'HEAD']]))
         elif extra == 'retry_after':
-            err['extra'] = draw(st.sampled_from([None, 0, 30, 86400]))
+            err['extra'] = draw(st.sampled_from([None, 0, 30, 86400, ['dt', [2050, 1, 1, 0, 30, 0], False], ['dt', [2031, 7, 15, 23, 59, 59], True],
+                                                 ['dt', [2028, 2, 29, 12, 0, 0], False], ['dt', [2030, 3, 10, 7, 30, 0], False]]))
     err['title'] = draw(st.one_of(st.none(), _text(min_size=1)))
     err['description'] = draw(st.one_of(st.none(), _text(max_size=20)))
     err['code'] = draw(st.one_of(st.none(), st.none(), st.integers(-5, 5), st.integers(-2 ** 70, 2 ** 70)))
